@@ -11,7 +11,7 @@ import BBProofs.Ops
 import BBProofs.RefPolicy
 import BBProofs.Exact
 import BBProofs.GenEq
-import BBProofs.GenEq2
+import BBProofs.GenEq3
 
 namespace BB
 
@@ -165,5 +165,40 @@ theorem C02_code_merge (expf : Rat → Rat) (D : Nat → Row) (m : MergeFn) (thr
   by_cases ha : accept m (tabOf expf) thr (c.mergedSummary s) c.summary s.summary = true
   · exact ⟨c.merge s, by rw [h]; simp [ha], exact_merge D c s hc hs, by simp [ha, Clu.merge]⟩
   · exact ⟨c, by rw [h]; simp [ha], hc, by simp [ha]⟩
+
+
+/-- code: `C02_code_merge` with the side conditions spelled out: exact summaries of equal feature count, the merged
+count below the float-exact range and no uint64 wrap-around in the statistics -/
+theorem C02_code_merge_exact (expf : Rat → Rat) (D : Nat → Row) (m : MergeFn) (thr : Rat) (c s : Clu)
+    (child scent schild : PV) (hc : Exact D c) (hs : Exact D s) (hlen : c.ls.length = s.ls.length)
+    (hn : c.n + s.n + 1 < 2 ^ 53) (hO : 1 ≤ c.n)
+    (hb : (c.n + s.n + 1) * ((addLs c.ls s.ls).sum + c.ls.length) < 2 ^ 64) :
+    ∃ c', BBGen._BFSubcluster_merge_subcluster expf (bufOf c) (PV.arr .u8 (pack c.cent)) child (PV.arr .big c.ids)
+            (bufOf s) scent schild (PV.arr .big s.ids) (PV.flt (some thr)) (objOf expf m)
+          = PV.bool (accept m (tabOf expf) thr (c.mergedSummary s) c.summary s.summary) :: stateOf c' child
+      ∧ Exact D c'
+      ∧ c'.ids = (if accept m (tabOf expf) thr (c.mergedSummary s) c.summary s.summary then c.ids ++ s.ids else c.ids) := by
+  have hcok := cluOk_of_exact D c hc (by omega)
+  have hsok := cluOk_of_exact D s hs (by omega)
+  have hmls := mergedSummary_ls c s hcok hsok hlen
+  have hle := addLs_le c.ls s.ls hlen c.n s.n hcok.le hsok.le
+  have hlen2 := addLs_length_eq c.ls s.ls hlen
+  have hnew : SumOk (c.mergedSummary s) := by
+    apply sumOk_of_consistent
+    · rw [hmls]; exact hle
+    · show c.n + s.n + 1 < 2 ^ 53; exact hn
+    · show (c.n + s.n + 1) * ((c.mergedSummary s).ls.sum + (c.mergedSummary s).ls.length) < 2 ^ 64
+      rw [hmls, hlen2]; exact hb
+  have hsum : c.ls.sum ≤ (addLs c.ls s.ls).sum := by
+    rw [sum_addLs_le _ _ hlen]; omega
+  have hold : SumOk c.summary := by
+    apply sumOk_of_consistent
+    · exact hcok.le
+    · show c.n + 1 < 2 ^ 53; omega
+    · show (c.n + 1) * (c.ls.sum + c.ls.length) < 2 ^ 64
+      calc (c.n + 1) * (c.ls.sum + c.ls.length) ≤ (c.n + s.n + 1) * ((addLs c.ls s.ls).sum + c.ls.length) :=
+            Nat.mul_le_mul (by omega) (by omega)
+        _ < 2 ^ 64 := hb
+  exact C02_code_merge expf D m thr c s child scent schild hc hs hlen (by omega) hnew hold hO
 
 end BB
